@@ -3,6 +3,8 @@ CONSTANTS
   MinV = 2
   MaxV = 4
   NLabels = 2
+  EditOps = {}
+  MaxRemove = 1
   Deviations = {"ChainAllVertices"}
 INVARIANT JoinConsecutiveSamePartOnly
 INVARIANT JoinAllConsecutive
